@@ -77,15 +77,15 @@ def generate(tier, rng):
     cases = []
     unis = [mk_universe((3, 2, 3), "abc"), mk_universe((2, 2, 2), "abc"),
             mk_universe((2, 2, 3), "abc", int_dims=("a",), falsy=True)]      # items 0 and "" (false in a boolean context)
-    if tier == "thorough":
-        unis.append(mk_universe((2, 3, 2, 2), "abcd"))
+    unis.append(mk_universe((2, 3, 2, 2), "abcd"))      # rank 4: a slice of the orders in the quick tier, more in the thorough one
     lay = ["C", "F", "V"]
     k = 0
     for ui, uni in enumerate(unis):
         L = list(uni.keys())
         subs = ordered_subsets(L)
         if len(L) == 4:
-            subs = [s for s in subs if len(s) == 4][::5] + [s for s in subs if len(s) == 3][::7]
+            subs = ([s for s in subs if len(s) == 4][::5] + [s for s in subs if len(s) == 3][::7]) if tier == "thorough" else \
+                   [s for s in subs if len(s) == 4][1::6]
         elif ui == 1:
             subs = [s for s in subs if len(s) >= 2][::2]
         for dims in subs:
